@@ -434,7 +434,7 @@ def as_callee(c):
     ghost = c.callee_ghost(b, bound) if hasattr(c, 'callee_ghost') else {}
     env = dict(bound)
     env.update(ghost)
-    if hasattr(c, 'requires'):
+    if getattr(c, 'requires', None) is not None:
       r = call_clause(interp, c.requires, env)
       z = interp.truth_z(r)
       name = f'PRE@{frame.name if frame else "?"}->{c.short()}'
@@ -443,7 +443,7 @@ def as_callee(c):
       ok = path.explorer.check_goal(path, full, z)
       if not ok:
         raise I.PathEnd()
-    old = call_clause(interp, c.old, env) if hasattr(c, 'old') else None
+    old = call_clause(interp, c.old, env) if getattr(c, 'old', None) is not None else None
     # exceptional behaviours
     for cname, fn in c.clauses('exc_iff_'):
       cond = interp.truth_z(call_clause(interp, fn, env))
@@ -501,11 +501,11 @@ def run_contract(contract, xcheck=True, goal_timeout_ms=8000):
     args, ghost = contract.inputs(b)
     env = dict(args)
     env.update(ghost)
-    if hasattr(contract, 'requires'):
+    if getattr(contract, 'requires', None) is not None:
       r = call_clause(interp, contract.requires, env)
       if not interp.truth(r):
         raise I.Infeasible()
-    old = call_clause(interp, contract.old, env) if hasattr(contract, 'old') else None
+    old = call_clause(interp, contract.old, env) if getattr(contract, 'old', None) is not None else None
     env['old'] = old
     # exceptional conditions are predicates of the pre-state
     exc_conds = {cname: interp.truth_z(call_clause(interp, fn, env)) for cname, fn in exc_iff}
